@@ -428,6 +428,10 @@ func genAPICase(t *rapid.T) apiCase {
 	c.Cfg.Cycles = rapid.SampledFrom([]int{1, 3, 10}).Draw(t, "cycles")
 	c.Calls = genWarmup(t, c.Cfg.M)
 	n := rapid.IntRange(1, 60).Draw(t, "n")
+	if rapid.IntRange(0, 99).Draw(t, "long") == 0 {
+		n = rapid.IntRange(300, 1500).Draw(t, "nlong") // many rounds, resets and respawns on one simulator
+		c.Cfg.Cycles = rapid.SampledFrom([]int{10, 300, 1000}).Draw(t, "cycleslong")
+	}
 	for i := 0; i < n; i++ {
 		c.Calls = append(c.Calls, genCall(t, c.Cfg.M))
 	}
@@ -438,7 +442,7 @@ const c13Rule = "call sequences over AddWarrior(pool of 6 tiny warriors), SpawnW
 
 func TestC13_Rapid(t *testing.T) {
 	hx.Run(t, hx.Prop[apiCase]{
-		ID: "C13", Sub: "sequences", Rule: "[sampled, length 1..60] " + c13Rule, Checks: hx.Scale(15000, 6000000),
+		ID: "C13", Sub: "sequences", Rule: "[sampled, length 1..60, one in a hundred 300..1500] " + c13Rule, Checks: hx.Scale(15000, 6000000),
 		Gen: genAPICase, Judge: judgeAPI,
 	})
 }
